@@ -27,6 +27,21 @@ theorem report_slices_audited :
     SliceSite.charRangePrefix ∈ sliceSites ∧ SliceSite.charRangeSpan ∈ sliceSites := by
   decide
 
+/-- obligation on the GENERATED list for the rest of the front end (parser and
+type checker without the lexer, which has its own model; `module.rs`,
+`file_tree.rs`): every cut of a text or list by offsets is one of the known
+ones — stripping the ASCII quotes of a string / character token, the ASCII
+prefix `0x` / `AS`, the pieces of an f-string between `char_indices` offsets,
+the tail of a method's parameter list, a full range. (Those are justified by
+the shape of the tokens, not by a theorem here; the point of this obligation
+is that a NEW cut — say of the offending token's text before it goes into a
+`ParseError` — does not go unnoticed.) -/
+theorem front_end_slices_audited : ∀ s ∈ frontEndSites, s.audited = true := by
+  decide
+
+/-- non-vacuity -/
+example : SliceSite.quotesStripped ∈ frontEndSites := by decide
+
 /-- non-vacuity: an unaudited cut is rejected, and what the audited ones rely on holds -/
 example : (SliceSite.unaudited "src/parser/error.rs" "quoted" 34 "token[..MAX_QUOTED_LEN]").audited = false ∧
     ∀ (file : List Char) (sp : Lex.Span), Lex.SpanOk file sp →
